@@ -573,7 +573,6 @@ func checkCEntryStates(p *Program, r *Report, fn *ssa.Function, mc *modelCalls, 
 	}
 }
 
-
 // ptrOnlyToCtor: every use of the raw pointer v hands it to a C-array constructor (or a cgo stub), directly or
 // through a module helper whose own parameter is used in that way only.
 func ptrOnlyToCtor(v ssa.Value, depth int) bool {
